@@ -21,6 +21,34 @@ type TV struct {
 
 type C15Case struct {
 	Vals []TV `json:"vals"` // 2 (pair laws) or 3 (transitivity as well)
+	// Join: the first two values also meet as keys of one-row tables in an equi join, in both plans: the rows
+	// pair exactly when the two values are equal in the stated order ("the comparison used by ... joins")
+	Join bool `json:"join,omitempty"`
+}
+
+// wide 64-bit integers: exact as integers, not as float64 - compared with integers and strings only
+var c15WideInts = map[string][]string{
+	"int64":  {"9223372036854775807", "9223372036854775806", "-9223372036854775808", "-9223372036854775807", "9007199254740993", "-9007199254740993", "4611686018427387904"},
+	"int":    {"9223372036854775807", "-9223372036854775808", "9007199254740993", "-9007199254740993"},
+	"uint64": {"18446744073709551615", "18446744073709551614", "9223372036854775808", "9223372036854775807", "9223372036854775809", "9007199254740993", "13835058055282163712"},
+	"uint":   {"18446744073709551615", "9223372036854775808", "9223372036854775807", "9007199254740993"},
+}
+
+func c15Wide(v any) bool {
+	r := c15Rat(v)
+	if r == nil || !r.IsInt() {
+		return false
+	}
+	lim := new(big.Int).Lsh(big.NewInt(1), 53)
+	return new(big.Int).Abs(r.Num()).Cmp(lim) > 0
+}
+
+func c15IsFloat(v any) bool {
+	switch v.(type) {
+	case float32, float64:
+		return true
+	}
+	return false
 }
 
 var c15Types = []string{"int", "int8", "int16", "int32", "int64", "uint", "uint8", "uint16", "uint32", "uint64", "float32", "float64"}
@@ -168,6 +196,9 @@ func c15Expected(a, b any) int {
 func c15Specified(a, b any) bool {
 	_, aStr := a.(string)
 	_, bStr := b.(string)
+	if (c15Wide(a) && c15IsFloat(b)) || (c15Wide(b) && c15IsFloat(a)) {
+		return false // outside the exactly-representable range of the floating point operand
+	}
 	if aStr == bStr {
 		return true
 	}
@@ -358,6 +389,9 @@ func genTV(t *rapid.T, label string) TV {
 		k := rapid.Int64Range(-(1<<12), 1<<12).Draw(t, label+".k")
 		return TV{ty, strconv.FormatFloat(float64(k)/4, 'f', -1, 32)}
 	}
+	if w := c15WideInts[ty]; w != nil && rapid.IntRange(0, 7).Draw(t, label+".wide") == 0 {
+		return TV{ty, rapid.SampledFrom(w).Draw(t, label+".widev")}
+	}
 	lo, hi, _ := c15Range(ty)
 	// bias towards small magnitudes so that equal values of different types meet
 	if rapid.IntRange(0, 2).Draw(t, label+".small") != 0 {
@@ -388,6 +422,30 @@ func genC15(t *rapid.T) any {
 			c.Vals[1] = tv
 		}
 	}
+	if rapid.IntRange(0, 5).Draw(t, "widepair") == 0 {
+		// a wide integer meets its own text, the same value in the other 64-bit types, or the value its bits would
+		// be under the other signedness
+		ty := rapid.SampledFrom([]string{"int64", "uint64", "int", "uint"}).Draw(t, "widepair.t")
+		v := rapid.SampledFrom(c15WideInts[ty]).Draw(t, "widepair.v")
+		c.Vals[0] = TV{ty, v}
+		other := TV{"string", v}
+		switch rapid.IntRange(0, 3).Draw(t, "widepair.other") {
+		case 0:
+			other = TV{rapid.SampledFrom([]string{"int64", "uint64", "int", "uint"}).Draw(t, "widepair.t2"), v}
+		case 1:
+			if u, err := strconv.ParseUint(v, 10, 64); err == nil {
+				other = TV{rapid.SampledFrom([]string{"int64", "int", "int8", "string"}).Draw(t, "widepair.t3"), strconv.FormatInt(int64(u), 10)}
+			} else if i, err := strconv.ParseInt(v, 10, 64); err == nil {
+				other = TV{rapid.SampledFrom([]string{"uint64", "uint", "string"}).Draw(t, "widepair.t4"), strconv.FormatUint(uint64(i), 10)}
+			}
+		case 2:
+			other = TV{rapid.SampledFrom([]string{"int64", "uint64"}).Draw(t, "widepair.t5"), rapid.SampledFrom(append(append([]string{}, c15WideInts["int64"]...), c15WideInts["uint64"]...)).Draw(t, "widepair.v5")}
+		}
+		if _, ok := other.goValue(); ok {
+			c.Vals[1] = other
+		}
+	}
+	c.Join = rapid.IntRange(0, 3).Draw(t, "join") == 0
 	return c
 }
 
@@ -424,6 +482,25 @@ func checkC15(c *C15Case) Result {
 			}
 		}
 	}
+	if c15Wide(vals[0]) || c15Wide(vals[1]) {
+		res.Labels = append(res.Labels, "beyond-2^53")
+	}
+	if c.Join && c15Specified(vals[0], vals[1]) {
+		res.Labels = append(res.Labels, "join-keys")
+		want := 0
+		if c15Expected(vals[0], vals[1]) == 0 {
+			want = 1
+		}
+		for _, kw := range []string{"JOIN", "HASH_JOIN"} {
+			sql := "SELECT x.k AS a, y.k AS b FROM ta x " + kw + " tb y ON x.k = y.k"
+			out := Run(map[string]any{"ta": []any{map[string]any{"k": vals[0]}}, "tb": []any{map[string]any{"k": vals[1]}}}, sql, Opts{})
+			res.Execs++
+			if !out.OK() || len(out.Rows) != want {
+				res.Violation = fmt.Sprintf("%s over ta.k = %s, tb.k = %s\n  the order of the values says %d, so %d row(s) pair\n  got %s", sql, c15Desc(vals[0]), c15Desc(vals[1]), c15Expected(vals[0], vals[1]), want, out.Describe())
+				return res
+			}
+		}
+	}
 	if len(vals) == 3 && sameKind(vals[0], vals[1]) && sameKind(vals[1], vals[2]) {
 		res.Labels = append(res.Labels, "triple")
 		perms := [][3]int{{0, 1, 2}, {0, 2, 1}, {1, 0, 2}, {1, 2, 0}, {2, 0, 1}, {2, 1, 0}}
@@ -444,7 +521,7 @@ func init() {
 		Rule: "part 1 (exhaustive, every run): a finite representative domain - for each of the 12 Go numeric types the boundary values " +
 			"(min, -129..-128, -2..2, 10, 127/128, 255/256, 32767/32768, 65535/65536, 2^31-1/2^31, 2^32-1/2^32, +-2^53 where representable), " +
 			"fractions for the float types, and 19 strings (empty, numeric-looking, prefixes, case pairs, multi-byte) - all ordered pairs and " +
-			"all same-kind ordered triples; part 2: rapid draws pairs/triples of random typed values (any type, " +
+			"all same-kind ordered triples; part 2: rapid draws pairs/triples of random typed values (64-bit boundary integers beyond 2^53 against integers and strings; a quarter of the pairs also meet as keys of one-row tables in JOIN and HASH_JOIN, which must pair them iff they are equal; any type, " +
 			"small-magnitude bias, neighbours +-1 of the first value). Oracle: exact rational comparison (math/big) for number/number, " +
 			"strings.Compare for string/string and decimal-text/string; result in {-1,0,1}; reflexive; antisymmetric; transitive within kind. " +
 			"Non-trivial: operands of different Go types.",
